@@ -474,7 +474,7 @@ def main(argv=None):
         print("  monitors (checked/calls): " + taps[:1500])
     if m["notes"]:
         print("  monitor notes (%d): %s" % (len(m["notes"]), " || ".join(sorted(set(n[:300] for n in m["notes"]))[:4])))
-    if m["counters"].get("monitor_errors", 0) > 0.02 * max(1, sum(t.get("checked", 0) for t in m["taps"].values())):
+    if m["counters"].get("monitor_errors", 0) > 0:      # a monitor that could not judge an event is not "held" (nor a violation)
         inconclusive.append("monitors raised internally on %d events" % m["counters"]["monitor_errors"])
     if lines:
         for l in lines:
